@@ -39,7 +39,8 @@ def seeded():
         needs = (m.get("needs_to_manifest") or "").replace("|", "/").replace("\n", " ")
         if len(needs) > 260:
             needs = needs[:257] + "..."
-        out.append("| %s | %s | %s | %s |" % (name, m.get("property"), needs, ", ".join(caught) if caught else ("**missed**" if cq else "(not run)")))
+        mark = ", ".join(caught) if caught else ("**missed**" if cq else "(not run)")
+        out.append("| %s | %s | %s | %s |" % (name, m.get("property"), needs, mark))
     out.append("")
     out.append("%d changes kept, %d caught by at least one check's quick tier." % (n, c))
     return "\n".join(out)
